@@ -123,6 +123,9 @@ type Evaluator struct {
 	Steps     int
 	// Uses records every atomic predicate asked of the oracle (side-condition audit).
 	Asked []string
+	// Trace records every uninterpreted call (callee outside the module, dynamic callee, interface method on an
+	// opaque receiver) in evaluation order.
+	Trace []string
 	depth int
 	ncell int
 }
@@ -677,7 +680,9 @@ func (ev *Evaluator) call(env map[ssa.Value]Val, in *ssa.Call) (Val, error) {
 		}
 		i, ok := recv.(Iface)
 		if !ok {
-			return Term{Fn: "invoke." + in.Call.Method.Name(), Args: append([]Val{recv}, args...)}, nil
+			t := Term{Fn: "invoke." + in.Call.Method.Name(), Args: append([]Val{recv}, args...)}
+			ev.Trace = append(ev.Trace, t.String())
+			return t, nil
 		}
 		ms := ev.Prog.MethodSets.MethodSet(i.Dyn)
 		sel := ms.Lookup(in.Call.Method.Pkg(), in.Call.Method.Name())
@@ -707,7 +712,9 @@ func (ev *Evaluator) call(env map[ssa.Value]Val, in *ssa.Call) (Val, error) {
 	if err != nil {
 		return nil, err
 	}
-	return Term{Fn: "dyn:" + fv.String(), Args: args}, nil
+	t := Term{Fn: "dyn:" + fv.String(), Args: args}
+	ev.Trace = append(ev.Trace, t.String())
+	return t, nil
 }
 
 func (ev *Evaluator) apply(fn *ssa.Function, args []Val, pos token.Pos) (Val, error) {
@@ -719,7 +726,9 @@ func (ev *Evaluator) apply(fn *ssa.Function, args []Val, pos token.Pos) (Val, er
 		return s(ev, args)
 	}
 	if fn.Pkg == nil && fn.Origin() == nil || len(fn.Blocks) == 0 || !strings.HasPrefix(pkgPath(fn), "go.lstv.dev/util") {
-		return Term{Fn: key, Args: args}, nil
+		t := Term{Fn: key, Args: args}
+		ev.Trace = append(ev.Trace, t.String())
+		return t, nil
 	}
 	out, err := ev.Eval(fn, args)
 	if err != nil {
